@@ -139,7 +139,7 @@ func c16crowd(c *wk.Ctx, i int, rng *rand.Rand, w *world, sess bus.Session, name
 	var progress int64
 	var mu sync.Mutex
 	want := map[reg]int{} // acknowledged registrations still in place, per (connection, signal)
-	told := map[reg]int{}  // termination errors received
+	told := map[reg]int{} // termination errors received
 	conns := make([]*rawConn, nConn)
 	for k := range conns {
 		rcn, err := dialRaw(w.addr)
